@@ -12,6 +12,7 @@ import (
 	"github.com/PowerDNS/lightningstream/lmdbenv/header"
 	"github.com/PowerDNS/lightningstream/lmdbenv/limitscanner"
 	"github.com/PowerDNS/lightningstream/utils"
+	"github.com/PowerDNS/lightningstream/utils/verifhook"
 	"github.com/PowerDNS/lmdb-go/lmdb"
 	"github.com/sirupsen/logrus"
 )
@@ -51,6 +52,7 @@ type Sweeper struct {
 // Run runs the sweeper according to the configured schedule.
 // It only runs until an error occurs or the context is closed.
 func (s *Sweeper) Run(ctx context.Context) error {
+	verifhook.Start(ctx, "sweeper", "")
 	wait := s.conf.FirstInterval
 	for {
 		// Wait
